@@ -458,6 +458,49 @@ Definition run (c : config) (e : env) (d : duty) (do_prepare : bool)
     let '(d1, evs, ok) := prepare c e d in ((evs, ok), propose c e d1)
   else (([], true), propose c e d).
 
+(* the duty as it is handed to Propose *)
+Definition duty_after (c : config) (e : env) (d : duty) (do_prepare : bool) : duty :=
+  if do_prepare then fst (fst (prepare c e d)) else d.
+
+(* ------------------------------------------------------------------------------------------- *)
+(* A history on one service instance.  The Service structure holds only what its constructor was
+   given (providers, signers, unblindFromAllRelays, builderBoostFactor): Prepare and Propose keep
+   nothing in it, everything they learn goes into the *duty* they were handed.  So a history of
+   calls for several duties -- each duty with the answers the environment gives while it is being
+   handled -- is the calls one after the other, each on its own duty object. *)
+Record dstate := { s_env : env; s_duty : duty }.
+
+Inductive op := OPrepare (i : nat) | OPropose (i : nat).
+
+Inductive out :=
+| OutPrepare (i : nat) (evs : list event) (ok : bool)
+| OutPropose (i : nat) (r : result)
+| OutNoSuchDuty.
+
+Fixpoint set_nth {A} (l : list A) (i : nat) (x : A) : list A :=
+  match l, i with
+  | [], _ => []
+  | _ :: l', O => x :: l'
+  | y :: l', S i' => y :: set_nth l' i' x
+  end.
+
+Fixpoint history (c : config) (ds : list dstate) (ops : list op) : list out :=
+  match ops with
+  | [] => []
+  | OPrepare i :: rest =>
+      match nth_error ds i with
+      | Some s =>
+          let '(d1, evs, ok) := prepare c (s_env s) (s_duty s) in
+          OutPrepare i evs ok :: history c (set_nth ds i {| s_env := s_env s; s_duty := d1 |}) rest
+      | None => OutNoSuchDuty :: history c ds rest
+      end
+  | OPropose i :: rest =>
+      match nth_error ds i with
+      | Some s => OutPropose i (propose c (s_env s) (s_duty s)) :: history c ds rest
+      | None => OutNoSuchDuty :: history c ds rest
+      end
+  end.
+
 (* No two relay goroutines act at one instant in a way that lets Go's scheduler decide:
    - two calls of different relays returning together: each probes the semaphore with
      TryAcquire/Release, which is not atomic, so one of them can find it taken although no relay has
